@@ -466,7 +466,7 @@ pub fn run_filtered(target: &str, data: &[u8], only: Option<&str>) -> (&'static 
                     }
                 });
             }
-            ("C16", c16::check_case(&c16::Case { convention, ops, universe }))
+            ("C16", c16::check_case(&c16::Case { convention, ops, universe, init: 0 }))
         }
         "arena_read" => {
             let step = |c: &mut Cursor| match c.u8() % 8 {
